@@ -646,7 +646,8 @@ class NPProxy:
 
     def atleast_1d(self, x):
         if symbolic(x):
-            a = _np.array(x, dtype=object)
+            # like numpy: an array that has a dimension already is returned as it is (no copy: aliasing is part of the semantics)
+            a = x if isinstance(x, _np.ndarray) else _np.array(x, dtype=object)
             if a.ndim == 0:
                 a = a.reshape(1)
             return a.view(SA)
@@ -654,7 +655,7 @@ class NPProxy:
 
     def atleast_2d(self, x):
         if symbolic(x):
-            a = _np.array(x, dtype=object)
+            a = x if isinstance(x, _np.ndarray) else _np.array(x, dtype=object)
             while a.ndim < 2:
                 a = a[None]
             return a.view(SA)
@@ -666,6 +667,8 @@ class NPProxy:
         return _np.array(x, *a, **k)
 
     def asarray(self, x, *a, **k):
+        if symbolic(x) and isinstance(x, _np.ndarray):
+            return x.view(SA)          # numpy.asarray does not copy an array
         return self.array(x, *a, **k)
 
     def ascontiguousarray(self, x, dtype=None, **k):
